@@ -658,6 +658,13 @@ func (e *ex) Do(op string) core.Result {
 		return runConc(f[1:])
 	case f[0] == "alias" && len(f) == 1:
 		return runAlias()
+	case f[0] == "bigx" && len(f) == 3:
+		n, e1 := strconv.Atoi(f[1])
+		seed, e2 := strconv.ParseUint(f[2], 10, 64)
+		if e1 != nil || e2 != nil || n < 1 || n > 1<<17 {
+			return core.Result{Impl: "bad-op"}
+		}
+		return runBigX(n, seed)
 	case f[0] == "ids" && len(f) == 3:
 		seed, e1 := strconv.ParseUint(f[1], 10, 64)
 		n, e2 := strconv.Atoi(f[2])
@@ -853,7 +860,7 @@ func (P) Nontrivial(ops []string, impl []string) bool {
 			scan(ks, strings.Split(impl[i], "|"))
 			continue
 		}
-		if f[0] == "gate" || f[0] == "ids" {
+		if f[0] == "gate" || f[0] == "ids" || f[0] == "bigx" {
 			continue
 		}
 		if f[0] == "conc" || f[0] == "hpark" {
